@@ -242,11 +242,13 @@ class PairHooks(A.Hooks):
 
     def call(self, interp, node, fname, args, kwargs, state):
         last = fname.rsplit('.', 1)[-1]
-        if fname in ('context.push', 'context.append', 'context.pop') or (last in ('push', 'append', 'pop') and fname.endswith('context.' + last)):
+        if fname in ('context.push', 'context.append', 'context.pop') or (last in ('push', 'append', 'pop') and fname.endswith('context.' + last)) \
+           or last in ('createSubProcess', 'endSubProcess'):
+            # (a sub-interpreter opens a context of its own and closes it when it ends: counted like push / pop, as the structural rule does)
             net, lo = state.env.get('__pair', (0, 0))
-            net += -1 if last == 'pop' else 1
+            net += -1 if last in ('pop', 'endSubProcess') else 1
             state.env['__pair'] = (net, min(lo, net))
-            return A.NONE
+            return A.Sym('subprocess', truthy=True) if last == 'createSubProcess' else A.NONE
         if last == 'createElement':
             k = state.env.get('__made', 0)
             state.env['__made'] = k + 1
@@ -270,7 +272,7 @@ def semantic_pairing(m, fn, follow=None):
     result = set()
     for combo in itertools.product((False, True), repeat=min(len(flags), 3)):
         ctx = A.Obj('context', {'push': A.Sym('extfunc:context.push', truthy=True), 'pop': A.Sym('extfunc:context.pop', truthy=True),
-                                'append': A.Sym('extfunc:context.append', truthy=True), 'top': A.Sym('frame', truthy=True)},
+                                'append': A.Sym('extfunc:context.append', truthy=True), 'top': A.Sym('frame')},
                     cls=m.cls('plasTeX.Context', 'Context'))        # (private helpers of Context - context managers - are interpreted on it)
         doc = A.Obj('document', {'context': ctx})
         me = A.Obj('macro', {'ownerDocument': doc}, cls=fn.cls) if fn.cls is not None else None
@@ -386,6 +388,11 @@ def r41(chk, m):
             if sem is not None and sem == allowed:
                 chk.ok(R, name, '%s (interpreted with a recording context): %s' % (sorted(sem), why))
                 continue
+        if (extra or missing) and sem is not None:
+            # interpreted with a recording context, all callees followed: the effect is determined and differs from the table
+            chk.fail(R, name, '%s: (net, lowest) at normal exits, interpreted with a recording context, is %s, table requires %s (%s); the frame '
+                     'opened here is not closed/the closer no longer pops' % (name, sorted(sem), sorted(allowed), why), chk.where(fn))
+            continue
         if (extra or missing) and indirection(name):
             chk.undecided(R, name, '%s calls through computed callees (%s): its effect on the context stack is not determined by the structural rule'
                           % (name, '; '.join(indirection(name)[:3])), chk.where(fn))
@@ -712,6 +719,8 @@ class RegHooks(TableHooks):
             return True
         if fname == 'isinstance' and len(args) == 2 and text(node.args[1]) == 'str':
             return isinstance(args[0], str)
+        if fname == 'issubclass' and len(args) == 2 and isinstance(args[0], A.Obj) and '__bases' in args[0].attrs and isinstance(args[1], M.ClassInfo):
+            return args[1].name in args[0].attrs['__bases']          # a class object of the scenario (an earlier \\def)
         return TableHooks.call(self, interp, node, fname, args, kwargs, state)
 
 
@@ -785,6 +794,42 @@ def r43(chk, m, rule_id='R4.3'):
         ok = bool(got - {()}) and got <= allowed
         chk.verdict(R, key, ok, '%s registers in frames %s of a 3-frame stack (0 = global frame, -1 = innermost); expected only %s'
                     % (key, sorted(got), where_txt), chk.where(fn), str(sorted(got)))
+    # a \\def over an earlier \\def of the same scope makes a new class: the old class object (which \\let copies and nodes already built
+    # still refer to) is left as it was
+    fn = m.func('plasTeX.Context', 'Context.newdef')
+    class NH(RegHooks):
+        def call(self, interp, node, fname, args, kwargs, state):
+            if fname == 'type' and len(args) == 3 and isinstance(args[0], str) and isinstance(args[2], dict):
+                k = state.env.get('__made', 0)
+                state.env['__made'] = k + 1
+                return A.Obj('new-class%d' % k, dict(args[2], __name__=args[0], macroName=None,
+                                                     __bases=tuple(getattr(b, 'name', '?') for b in (args[1] if isinstance(args[1], tuple) else ()))))
+            if fname == 'macroName' and len(args) == 1 and isinstance(args[0], A.Obj) and isinstance(args[0].attrs.get('__name__'), str):
+                return args[0].attrs['__name__']
+            return RegHooks.call(self, interp, node, fname, args, kwargs, state)
+    for local in (True, False):
+        h = NH(m, Context)
+        h.keep = lambda ev: False
+        it = A.Interp(model=m, scope=fn, hooks=h, max_iter=3, exc_edges=False, inline=3, heap=True, precise_exc=True)
+        env = ctx_heap(m, 3)
+        old = A.Obj('old-class', {'args': 'OLD-ARGS', 'definition': 'OLD-BODY', '__bases': ('Definition', 'Macro'), '__name__': 'foo'})
+        for i, f in enumerate(env['__frames']):
+            f.attrs['__items'] = {'foo': old} if i == (2 if local else 0) else {}
+        env['self'].attrs.update({'counters': {}, 'writes': {}, '__items': None})
+        env.update({'name': 'foo', 'args': None, 'definition': None, 'local': local, '__old': old})
+        got = set()
+        for kind, s2, v in it.run_function(fn, env=env):
+            fr = s2.env['__frames'][2 if local else 0]
+            cur = fr.attrs.get('__items', {}).get('foo') if isinstance(fr.attrs.get('__items'), dict) else A.TOP
+            o2 = s2.env['__old']
+            got.add((kind, 'the old class is still registered' if cur is o2 else ('a new class' if isinstance(cur, A.Obj) else 'TOP'),
+                     'old class as it was' if (o2.attrs.get('args'), o2.attrs.get('definition')) == ('OLD-ARGS', 'OLD-BODY') else 'old class rewritten'))
+        if it.imprecise or it.unknown_branches:
+            chk.undecided(R, 'Context.newdef over an earlier definition (local=%s)' % local, '; '.join((list(it.imprecise) + list(it.unknown_branches))[:3]), chk.where(fn))
+        else:
+            chk.decide(R, 'Context.newdef over an earlier definition (local=%s)' % local, got, {('return', 'a new class', 'old class as it was')},
+                       'newdef("foo") in a scope that already holds a \\def foo gives %s; expected a new class in its place and the old class object '
+                       'untouched - copies made with \\let and nodes built earlier keep the old meaning' % sorted(got), chk.where(fn))
     # a local insertion leaves every enclosing frame as it was (its definitions and its character aliases)
     for name, extra in (('let', {'dest': DEST, 'source': ESC}), ('let', {'dest': DEST, 'source': OTH}), ('addLocal', {'key': 'd', 'value': MAC})):
         fn = m.func('plasTeX.Context', 'Context.' + name)
